@@ -30,7 +30,13 @@ META = {
             "model are sequential, numpy's are BLAS: they differ by ulps, which matters only if a threshold test is within an ulp "
             "(not observed). x_scale='jac', user Jacobians and check_derivatives are not modelled ('jac' runs are oracle-only). "
             "Termination of the two inner while loops is not proved (model fuel). linear_reaches_bounded_min_partial assumes the "
-            "run reaches a G_TOL stop; reaching the bounded minimum is sampled against scipy.optimize.lsq_linear.",
+            "run reaches a G_TOL stop; reaching the bounded minimum is sampled against scipy.optimize.lsq_linear (bvls, cost within "
+            "1e-6 relative) for default solver options, max_iter >= 20, x_scale within 1e-3..1e3 and |clipped start| <= 1e7; outside "
+            "that scope (x_scale = 1e-6 / 1e6, start at the emulated one-sided bound 1e9) non-convergence within max_iter or "
+            "FACTORIZATION_FAILED does occur and is only counted (evidence: linear_vs_lsq_linear.out_of_scope_not_at_minimum). "
+            "The dx buffer passed to mju_boxQP is loop state in the model (the solver warm-starts from it). Bounds must be finite in "
+            "minimize.py: 'one-sided' boxes have the other side at +-1e9. Boxes between 1 and 2 FD steps wide (outside the "
+            "precondition) are run for information only: the forward probe leaves them (evidence key boxes_between_1_and_2...).",
 }
 
 P = "MjProof.C46."
@@ -255,11 +261,59 @@ def describe(spec):
     return d
 
 
+def python_snippet(spec):
+    """Stand-alone reproduction with the public API only (linear family; PYTHONPATH=$REPO/python /venv/bin/python)."""
+    if spec["fam"] != "lin":
+        return None
+    d = describe(spec)
+    A = "[" + ", ".join("[" + ", ".join(r) + "]" for r in d["A"]) + "]"
+    bnd = "None" if d["lo"] is None else "[np.array([%s]), np.array([%s])]" % (", ".join(d["lo"]), ", ".join(d["hi"]))
+    xs = d["x_scale"]
+    xs = "None" if xs is None else "'jac'" if xs == "jac" else xs if isinstance(xs, str) else "np.array([%s])" % ", ".join(xs)
+    kw = "".join(", %s=%s" % (k, d[k]) for k in ("mu_min", "mu_max", "mu_factor", "xtol", "gtol", "eps") if k in d)
+    return ("import numpy as np; from mujoco import minimize; A = np.array(%s); b = np.array([%s]).reshape(-1, 1); seen = []\n"
+            "def residual(x):\n    seen.append(x.copy()); return A @ x - b\n"
+            "x, trace = minimize.least_squares(np.array([%s]), residual, %s, x_scale=%s, max_iter=%d, verbose=0%s)\n"
+            "print(x, [v.ravel() for v in seen])  # compare with the bounds"
+            % (A, ", ".join(d["b"]), ", ".join(d["x0"]), bnd, xs, spec["max_iter"], kw))
+
+
+DIRECTED = [
+    # the smallest instance found of the rounding escape: least_squares returns 2.3000000000000007 for the upper bound 2.3
+    {"fam": "lin", "n": 1, "m": 1, "A": [[1.0]], "b": [10.0], "q": 0.0, "x0": [-7.0], "lo": [-1e6], "hi": [2.3], "D": None,
+     "max_iter": 100, "bounds_kind": "directed", "start_kind": "inside", "scale_kind": "none"},
+    {"fam": "lin", "n": 1, "m": 1, "A": [[1.0]], "b": [10.0], "q": 0.0, "x0": [-3.0], "lo": [-10.0], "hi": [0.1], "D": None,
+     "max_iter": 100, "bounds_kind": "directed", "start_kind": "inside", "scale_kind": "none"},
+    {"fam": "lin", "n": 1, "m": 1, "A": [[1.0]], "b": [-10.0], "q": 0.0, "x0": [7.0], "lo": [-2.3], "hi": [1e6], "D": None,
+     "max_iter": 100, "bounds_kind": "directed", "start_kind": "inside", "scale_kind": "none"},
+    {"fam": "lin", "n": 2, "m": 2, "A": [[1.0, 0.0], [0.0, 1.0]], "b": [10.0, -10.0], "q": 0.0, "x0": [0.0, 0.0],
+     "lo": [-5.0, -0.7], "hi": [0.7, 5.0], "D": [3.0, 49.0], "max_iter": 100, "bounds_kind": "directed", "start_kind": "inside",
+     "scale_kind": "array"},
+]
+
+
+def directed_specs():
+    out = []
+    for d in DIRECTED:
+        s = dict(d)
+        s["A"] = [[f2h(v) for v in row] for row in d["A"]]
+        for k in ("b", "x0", "lo", "hi"):
+            s[k] = [f2h(v) for v in d[k]]
+        s["q"] = f2h(d["q"])
+        if isinstance(d["D"], list):
+            s["D"] = [f2h(v) for v in d["D"]]
+        out.append(s)
+    return out
+
+
 def replay_obj(spec, extra):
     r = {"problem": describe(spec),
          "replay": "echo 'run %s |' | %s %s %s   # prints status, returned x, trace T=, every residual argument C= (hex IEEE bits)"
                    % (enc(spec), PY, IMPL, common.REPO),
          "residual_family": "lin: r = A x - b; quad: l = A x - b, r = l + q*l*l; rosen: r = [q*(x[i+1]-x[i]^2), 1-x[i]]..."}
+    py = python_snippet(spec)
+    if py:
+        r["python"] = py
     r.update(extra)
     return r
 
@@ -445,10 +499,10 @@ def run(ctx):
     if not os.path.exists(anchor):
         ctx.oblige("anchor python/mujoco/minimize.py exists", "impl-build", False, "file missing in " + common.REPO)
         return
-    nfam = 2500 if thorough else 260
-    nadv = 1500 if thorough else 120
-    njac = 300 if thorough else 30
-    specs = gen_specs(ctx, nfam, "family") + gen_specs(ctx, nadv, "adversarial")
+    nfam = 6500 if thorough else 260
+    nadv = 3500 if thorough else 120
+    njac = 600 if thorough else 30
+    specs = directed_specs() + gen_specs(ctx, nfam, "family") + gen_specs(ctx, nadv, "adversarial")
     hist = {}
     for s in specs:
         for k in ("fam", "bounds_kind", "start_kind", "scale_kind"):
